@@ -31,6 +31,10 @@ func init() {
 			}
 			sc.Sub = c14Terminators[g.Intn(len(c14Terminators))]
 			sc.SetInt("n", g.Range(1, 3))
+			if g.Bool(0.3) {
+				sc.SetInt("handle", g.Range(1, 2))
+				sc.SetInt("viahandle", g.Intn(2))
+			}
 			return sc
 		},
 		Expand: func(sc *Scn) []*Scn {
@@ -116,7 +120,7 @@ func runC14(e *Env) {
 			obs = append(obs, s.Obs())
 		}
 		name := sc.Stages[0].Op[len("comb:"):]
-		o = combs[name].Build(e, obs)
+		o = combs[name].Apply(e, obs)
 	} else {
 		o, srcs = e.Pipeline()
 	}
@@ -158,7 +162,19 @@ func runC14(e *Env) {
 	case "Unsubscribe":
 		extUnsub = true
 	}
-	h := e.Subscribe(o, rec.Observer(), nil)
+	// the caller may have made the subscriber itself (handle 1: unsafe, 2: safe) and end the subscription
+	// through it instead of through the subscription Subscribe returned
+	var observer ro.Observer[int] = rec.Observer()
+	var handle ro.Subscriber[int]
+	switch sc.Int("handle", 0) {
+	case 1:
+		handle = ro.NewUnsafeSubscriber(observer)
+		observer = handle
+	case 2:
+		handle = ro.NewSafeSubscriber(observer)
+		observer = handle
+	}
+	h := e.Subscribe(o, observer, nil)
 	e.Settle()
 	FeedAll(srcs)
 	terminated := func() bool { return rec.Terminal() != 0 }
@@ -184,7 +200,11 @@ func runC14(e *Env) {
 					e.Violate("C14", "unsubscribe-panics", fmt.Sprintf("Unsubscribe panicked: %v", r))
 				}
 			}()
-			h.Sub().Unsubscribe()
+			if handle != nil && sc.Int("viahandle", 0) == 1 {
+				handle.Unsubscribe()
+			} else {
+				h.Sub().Unsubscribe()
+			}
 		})
 		e.Settle()
 		for _, st := range sc.Stages {
